@@ -3,6 +3,8 @@ package main
 import (
 	"fmt"
 	"os"
+	"runtime"
+	"runtime/debug"
 	"sort"
 	"sync"
 	"time"
@@ -76,7 +78,16 @@ func c40Report(r *vkit.Run, spec *caseSpec, res *caseResult) {
 	}
 }
 
+var tStart = time.Now()
+
+func tmark(s string) {
+	if phaseLog {
+		fmt.Fprintf(os.Stderr, "T %s +%v\n", s, time.Since(tStart))
+	}
+}
+
 func c40(r *vkit.Run) {
+	tmark("c40 start")
 	r.SetRule("one case = one SPDY/3.1 connection (net.Pipe, 1 in 5 loopback TCP) served by bfe_spdy's handleConn+serve; a scripted client " +
 		"(spdycli) plays a seeded script of five kinds: respecting uploads to gated handlers with DATA exactly at / one over / far over the " +
 		"advertised windows; uploads whose handlers discard the body; downloads (handlers write 0..1MB in random chunks) with drip-fed " +
@@ -94,7 +105,9 @@ func c40(r *vkit.Run) {
 	r.Assume("liveness verdicts (stall) only after 20 s without progress plus two answered PINGs; all other verdicts are timing independent")
 
 	bfe_spdy.VerifEnableState()
+	debug.SetGCPercent(400) // connections are allocation heavy (zlib contexts); memory is not a concern here
 	base, _ := spdyGoroutines()
+	tmark("census base")
 
 	if r.Replay != "" {
 		var w c40Witness
@@ -115,7 +128,7 @@ func c40(r *vkit.Run) {
 	if v := os.Getenv("VSPDY_N"); v != "" { // development only
 		fmt.Sscan(v, &n)
 	}
-	vkit.Parallel(n, 0, func(i int) {
+	vkit.Parallel(n, 2*runtime.NumCPU(), func(i int) {
 		spec := genCase(r, i)
 		c40WriteAhead(r, i, true)
 		t0 := time.Now()
@@ -129,7 +142,9 @@ func c40(r *vkit.Run) {
 		}
 		c40Report(r, spec, res)
 	})
+	tmark("cases done")
 	c40Epilogue(r, base)
+	tmark("epilogue done")
 
 	// outcomes the workload is supposed to reach
 	for _, k := range []string{
